@@ -10,7 +10,8 @@ Monitors (the property itself on what the implementation did, independent of the
 Model and check describe the REPAIRED code (ff6cf28 F11c, 0f1faec F11b, f5eca82 F12c).  Known findings that remain (narrow
 classes): quoted-trailing-backslash (what is left of F11b; also when recording), positional-eq-exported (what is
 left of F11a, fixed by 92cc1cc: a positional value that looks like NAME=value is exported as NAME by a retry/restart),
-F11d output-captures-stderr, output-exceeds-exec-string (a captured value longer than execve takes in one environment string: every later step fails
+F11d output-captures-stderr, output-exceeds-exec-string
+(streams: parse, doc, env, loop, subst, cli, restart, out) (a captured value longer than execve takes in one environment string: every later step fails
 to start).
 """
 import base64
@@ -216,6 +217,8 @@ def monitor(c):
     st = c["stream"]
     if st == "subst":
         return monitor_subst(c)
+    if st == "restart":
+        return monitor_restart(c)
     if st == "cli":
         items = c["items"]
         classes = [item_class(it) for it in items]
@@ -326,20 +329,39 @@ def monitor_subst(c):
     return None
 
 
+def monitor_restart(c):
+    """`start -p` (with $C11VAR=alpha) on a DAG that keeps running, then `restart` in a process where $C11VAR=beta: the
+    restarted run must see exactly the parameter values of the run it repeats."""
+    items = [dict(it, value=subst(it["value"], VAR1)) for it in c["items"]]
+    bad = sorted([x for x in (item_class(it) for it in c["items"]) if x], key=lambda x: 0 if x == "quoted-trailing-backslash" else 1)
+    cls0 = {"class": bad[0] if bad else "v0", "stream": "restart"}
+    if c.get("hang"):
+        return ("start / restart did not come back", cls0)
+    r = seen_mismatch(c, items, "", whos=("env",))
+    if r:
+        return ("first run (start -p): " + r, cls0)
+    rcl = roundtrip_class(items)
+    cls1 = {"class": "restart-values" if rcl == "v1" else rcl, "stream": "restart" if rcl == "v1" else "params"}
+    r = seen_mismatch(c, items, "re-", whos=("env",)) or exported_mismatch(c, items)
+    if r:
+        return ("the restarted run does not see the parameters of the run it repeats: " + r, cls1)
+    return None
+
+
 def _short(x):
     if x is None:
         return None
     return x if len(x) <= 80 else x[:40] + b"...(%d bytes)..." % len(x) + x[-20:]
 
 
-def seen_mismatch(c, items, prefix):
+def seen_mismatch(c, items, prefix, whos=("env", "handler")):
     """What the children saw against the given values ($i for positional items, $NAME for named ones)."""
     pr = c.get("probes") or {}
     last_named = {}
     for i, it in enumerate(items):
         if it.get("name"):
             last_named[it["name"]] = it["value"]
-    for who in ("env", "handler"):
+    for who in whos:
         p = pr.get(prefix + who)
         if p is None or p.get("env") is None:
             return "child %s%s left no probe" % (prefix, who)
@@ -466,7 +488,7 @@ def candidates(c):
         s = c["s"]
         for i in range(len(s)):
             out.append(dict(base, s=s[:i] + s[i + 1:]))
-    elif c["stream"] in ("doc", "env", "loop", "subst", "cli"):
+    elif c["stream"] in ("doc", "env", "loop", "subst", "cli", "restart"):
         its = c["items"]
         for i in range(len(its)):
             if len(its) > 1:
@@ -505,7 +527,7 @@ def slim(c):
 def nontrivial(c):
     if c["stream"] == "parse":
         return any(ch in c["s"] for ch in '"=` \\')
-    if c["stream"] in ("doc", "env", "loop", "subst", "cli"):
+    if c["stream"] in ("doc", "env", "loop", "subst", "cli", "restart"):
         return any(it["kind"] != "w" or "=" in it["value"] for it in c["items"])
     return len(out_bytes(c)) > 0
 
@@ -513,7 +535,7 @@ def nontrivial(c):
 def key(c):
     if c["stream"] == "parse":
         return ("p", c["s"])
-    if c["stream"] in ("doc", "env", "loop", "subst", "cli"):
+    if c["stream"] in ("doc", "env", "loop", "subst", "cli", "restart"):
         return (c["stream"], json.dumps(c["items"], sort_keys=True))
     return ("o", c.get("gen"), c.get("size"), c.get("out_b64"), c.get("err_b64"))
 
@@ -571,7 +593,7 @@ def run(ctx, replay_cases=None):
             k = next((x for x in cl if x), "V0")
             classes[k] = classes.get(k, 0) + 1
     ctx.cov["evaluations"] = len(cases)
-    ctx.cov["traces_validated_against_impl"] = sum(1 for c in cases if c["stream"] in ("env", "loop", "out", "subst", "cli"))
+    ctx.cov["traces_validated_against_impl"] = sum(1 for c in cases if c["stream"] in ("env", "loop", "out", "subst", "cli", "restart"))
     ctx.cov["distinct_nontrivial"] = len(seen)
     ctx.cov["rule"] = ("distinct = distinct input (parameter string / item list / output bytes); non-trivial = a parameter string "
                        "containing a quote, =, back-tick, backslash or space; an item list with a quoted or named item; a non-empty output")
